@@ -448,8 +448,8 @@ lv_mk_env(int small)
     H4V_ASSUME(vg_oref != 0);
     if (small) {
         H4V_ASSUME(vg_msize == 4 && vg_nvelt <= 2 && vg_nattrs <= 1);
-        H4V_ND_BUF(uint16, vg_tag, vg_msize, 4);
-        H4V_ND_BUF(uint16, vg_ref, vg_msize, 4);
+        H4V_ND_BUF(uint16, vg_tag, 4, 4); /* constant sizes: symbolic-size objects are what makes the histories expensive */
+        H4V_ND_BUF(uint16, vg_ref, 4, 4);
         g_vg->tag = vg_tag;
         g_vg->ref = vg_ref;
     }
